@@ -890,6 +890,7 @@ class H:
         )
         if ok and self.mode == "A":
             # the path was read in a settled state (after a render): restoring it must survive the next render too
+            path_kinds = [n.kind for n in self.chain() if not n.is_leaf()]  # containers along the restored path, root first
             CanvasCache.clear()
             try:
                 self.root.widget.render(ROOT_SIZE, focus=True)
@@ -906,6 +907,8 @@ class H:
                 "roundtrip-after-render",
                 nontrivial=bool(path),
                 read_after_step=i0,
+                path_kinds=path_kinds,
+                path_after_render=got2,
             )
 
     # ------------------------------------------------------------------ driver for one history
